@@ -8,6 +8,7 @@ import (
 	"os"
 	"strings"
 	"testing"
+	"time"
 
 	"github.com/google/licenseclassifier/commentparser/language"
 )
@@ -67,7 +68,14 @@ func vparse(in []byte, lang int) (res string) {
 		}
 		done <- r
 	}()
-	return <-done
+	select {
+	case r := <-done:
+		return r
+	case <-time.After(10 * time.Second):
+		// the lexer works in time linear in the input; a call that is still running after 10 s on
+		// an input of a few bytes does not return (its goroutine is left behind)
+		return "HANG"
+	}
 }
 
 // alphabets rich in the delimiters of each comment style
@@ -103,8 +111,18 @@ func TestVerifC18(t *testing.T) {
 	defer o.close()
 	r := newVrand(vseed() + 18)
 	n := 0
+	hangs := 0
 	emit := func(id string, lang int, in []byte) {
+		if hangs >= 3 {
+			return // every hung call keeps a core busy: three replays are enough
+		}
 		res := vparse(in, lang)
+		if res == "HANG" || res == "PANIC" {
+			if res == "HANG" {
+				hangs++
+			}
+			o.verdict("C18", "total_"+id, false, true, fmt.Sprintf("total:%d:%s", lang, hx(in)), map[string]interface{}{"what": "Parse did not return a result: " + res, "language": lang, "input_hex": hx(in), "input": string(in)})
+		}
 		// two records per input: the impl-level model (tie) and the specification lexer (oracle)
 		o.corr("lex", id, []string{fmt.Sprint(lang), hx(in)}, res)
 		o.corr("spec:lexspec", "S"+id, []string{fmt.Sprint(lang), hx(in)}, res)
